@@ -18,6 +18,7 @@ def tables : List (String → List String → Option String) := []
 
 /-- Stateful groups, selected by a first line `#mode <name>`. -/
 def modes : List Mode := []
+  ++ [Drv.Schema.mode]
 
 def dispatch (line : String) : String :=
   match tokens line with
